@@ -59,6 +59,7 @@ var skipDirs = map[string]bool{
 // is now, so that renaming or retyping those variables does not break the build.
 var resetFuncs = map[string]string{
 	"internal/signinit/timestamper.go": "ZZResetTimestamper",
+	"cmdline/token/common.go":          "ZZReset", // the tokens the command-line layer keeps open between commands
 }
 
 // genReset writes the reset function for one source file.
